@@ -91,15 +91,20 @@ Expected(fl) == ProdSeq(fl.hdr.nodes) * fl.hdr.valuedim
 (*   check    immediately before (inside: in the middle of) the check value             *)
 (*   data k   after k complete data values (inside: plus a part of value k+1)           *)
 (*   foot j   after the newline that ends the data and j footer lines (inside: in line j+1) *)
+(*   excise k NOT a truncation: the last k data values (inside: and a part of one more) are   *)
+(*            missing from the data block, the footer lines are all there (a reader that only   *)
+(*            counts bytes takes the footer for values)                                          *)
 CutsOf(fl) ==
    {<<"hdr", j, b>> : j \in HdrCuts, b \in BOOLEAN} \cup {<<"begin", 0, TRUE>>}
    \cup (IF Binary(fl) THEN {<<"check", 0, FALSE>>, <<"check", 0, TRUE>>} ELSE {})
    \cup {<<"data", k, FALSE>> : k \in 0 .. Len(fl.data)}
    \cup {<<"data", k, TRUE>> : k \in 0 .. (Len(fl.data) - 1)}
    \cup {<<"foot", j, b>> : j \in 0 .. 1, b \in BOOLEAN}
+   \cup (IF Binary(fl) THEN {<<"excise", k, b>> : k \in 1 .. Min2(3, Len(fl.data) - 1), b \in BOOLEAN} ELSE {})
 BeginIntact(fl)  == fl.cut[1] \notin {"hdr", "begin"}
 CompleteVals(fl) == CASE fl.cut[1] \in {"hdr", "begin", "check"} -> 0
                       [] fl.cut[1] = "data" -> fl.cut[2]
+                      [] fl.cut[1] = "excise" -> Len(fl.data) - fl.cut[2] - (IF fl.cut[3] THEN 1 ELSE 0)
                       [] OTHER -> Len(fl.data)
 CheckSeen(fl)    == IF fl.cut[1] \in {"hdr", "begin", "check"} THEN "missing" ELSE fl.check
 (* a binary file whose check value is wrong or whose data block is short *)
